@@ -78,8 +78,16 @@ def trivial_property_expr(repo: Repo, cls: ClassInfo, name: str) -> Optional[ast
     return None
 
 
-def inline_properties(repo: Repo, cls: ClassInfo, node: ast.AST, depth: int = 4) -> Any:
-    """Replace loads of `self.<trivial property>` (resolved through the MRO of `cls`) by the property's expression."""
+def is_accessor_expr(e: ast.expr) -> bool:
+    """`self._x` (a pure field accessor)"""
+    return isinstance(e, ast.Attribute) and isinstance(e.value, ast.Name) and e.value.id == "self"
+
+
+def inline_properties(repo: Repo, cls: ClassInfo, node: ast.AST, depth: int = 4, accessors_only: bool = True) -> Any:
+    """
+    Replace loads of `self.<trivial property>` (resolved through the MRO of `cls`) by the property's expression.
+    By default only pure field accessors (`return self._x`) are inlined.
+    """
 
     class T(ast.NodeTransformer):
         def __init__(self, d: int):
@@ -89,7 +97,7 @@ def inline_properties(repo: Repo, cls: ClassInfo, node: ast.AST, depth: int = 4)
             n = self.generic_visit(n)  # type: ignore
             if isinstance(n.ctx, ast.Load) and isinstance(n.value, ast.Name) and n.value.id == "self" and self.d > 0:
                 e = trivial_property_expr(repo, cls, n.attr)
-                if e is not None:
+                if e is not None and (not accessors_only or is_accessor_expr(e)):
                     return T(self.d - 1).visit(copy.deepcopy(e))
             return n
 
